@@ -1023,6 +1023,48 @@ def send_oracle(run, case, props):
                                           'item %d publishes id %s although the tracked synchronized client c%d/u%d has no unanswered request' % (k, pubs_here[0][2], key[0], key[1]), summary)
                             break
             prev = {(c[0], c[1]): c for c in dig[1]}
+    if 'C05' in props and not cfg['balance']:
+        # a '?' listener never delays the publisher: once a synchronized client's request has opened the gate (every tracked
+        # synchronized client has asked, every required output is connected), whatever ephemeral listeners say afterwards -
+        # a request, an out-of-band message, CLOSE - leaves it open, and the frame in hand goes out when the inbox is empty
+        items = case['items']
+        for k in range(2, len(items)):
+            raw = items[k][3]
+            if raw[0] != 'poll' or raw[1] is not None or _in_push_call(items, k):
+                continue
+            call = next((items[j][3] for j in range(k, -1, -1) if items[j][3][0] == 'call'), None)
+            if call is None or call[3] is None:
+                continue
+            j, listeners, ok = k - 1, [], True
+            while j > 0 and items[j][3][0] == 'poll' and items[j][3][1] and items[j - 1][2] is not None and items[j][2] is not None:
+                m = items[j][3][1]
+                before = {(c[0], c[1]): c for c in items[j - 1][2][1]}
+                ent = before.get((m['cid'], m['uid']))
+                # (a first contact - untracked, 'new' - is answered with HELLO and soaks up the next poll: not judged here)
+                is_listener = ent is not None and ent[5] == 1 and (m['mid'] <= -2 or m['eph']) and m['cid'] not in cfg['required']
+                if not is_listener:
+                    break
+                listeners.append(j)
+                j -= 1
+            if not listeners or j < 1:
+                continue
+            rj = items[j][3]
+            if rj[0] != 'poll' or not rj[1] or rj[1]['mid'] <= -2 or rj[1]['eph'] or items[j][2] is None or items[j - 1][2] is None:
+                continue
+            if (rj[1]['cid'], rj[1]['uid']) not in {(c[0], c[1]) for c in items[j - 1][2][1]}:
+                continue            # first contact: not registered
+            if any(o[0] in ('P', 'x', 'r') for l in range(j, k) for o in items[l][1]):
+                continue            # published already, or the call ended there (a newer id was adopted)
+            tabs = [items[l][2][1] for l in range(j, k)]
+            if not all(all(any(c[0] == r for c in tab) for r in cfg['required']) for tab in tabs):
+                continue
+            if not all(all(c[4] or c[5] for c in tab) for tab in tabs) or not any(c[4] and not c[5] for c in tabs[0]):
+                continue
+            if not any(o[0] in ('P', 'x') for o in items[k][1]):
+                run.violation('listener:withdraws-decision after=%s' % ['close' if items[l][3][1]['mid'] == -3 else 'oob' if items[l][3][1]['mid'] == -2 else 'request' for l in reversed(listeners)],
+                              "item %d: the synchronized client c%d's request had opened the gate (every synchronized client asked, required outputs connected); "
+                              "then only '?' listeners spoke (items %s) and the frame in hand was not published when the inbox ran empty"
+                              % (k, rj[1]['cid'], sorted(listeners)), dict(summary, observed=[[l, items[l][1], items[l][2]] for l in range(j - 1, k + 1)]))
     if props & {'C05', 'C07'} and cfg['balance']:
         # a splitter's gate, judged on the client table: an endpoint is ready when every client on it has asked or is an ephemeral
         # listener and at least one has asked; with every required output connected, a ready endpoint means the frame in hand
@@ -1188,6 +1230,13 @@ CORPUS_RECV = [
          script=[['call', None, None, 0], ['deliver', 0, _m('/a/', 10, 7, ['a', 'b'], 1)], ['poll', [0], 0],
                  ['deliver', 0, _m('//', 10, -3, [], 0)], ['deliver', 0, _m('/b/', 11, 0, ['a', 'b'], 2)],
                  ['poll', [0], 0], ['poll', [0], 0], ['poll', [], 0]]),
+    # W6: the same with a restarted publisher that announces itself under the SAME id (the id is the configured filter name, a
+    #     restart does not change it): the CLOSE, not the name, is what ends the old incarnation's half-received set
+    dict(name='W6', cfg=dict(balance=False, low_latency=False, srcs=[dict(eph=1, mode=[['a', 'a'], ['b', 'b']])]),
+         script=[['call', None, None, 0], ['deliver', 0, _m('/a/', 10, 7, ['a', 'b'], 1)], ['poll', [0], 0],
+                 ['deliver', 0, _m('//', 10, -3, [], 0)], ['deliver', 0, _m('/b/', 10, 0, ['a', 'b'], 2)],
+                 ['deliver', 0, _m('/a/', 10, 1, ['a', 'b'], 3)], ['deliver', 0, _m('/b/', 10, 1, ['a', 'b'], 4)],
+                 ['poll', [0], 0], ['poll', [0], 0], ['poll', [0], 0], ['poll', [0], 0], ['poll', [], 0]]),
 ]
 
 
